@@ -5,7 +5,8 @@ import ast
 
 from ..cfg import header_parts
 from ..dataflow import node_defs, target_names
-from ..engine import Ctx, rule
+from ..engine import Ctx, cond_from_entry, formula_of, rule
+from ..formula import implies
 from ..model import dotted as dotted_name, src
 
 
@@ -45,6 +46,8 @@ SCOPES: list[tuple[str, list[str]]] = [
     ('diagram.', ['C20']),
     ('utils.OrderedSet.', ['C03', 'C15', 'C17']),
     ('utils.', ['C19']),
+    # the monitor is driven from inside the run loop, in the calling thread: what it raises, run_tasks raises
+    ('monitor.', ['C01', 'C10']),
 ]
 
 
@@ -730,6 +733,41 @@ def comparison_traps(ctx: Ctx):
                                              f'`{src(x)[:60]}` compares identity with a literal: whether equal values are the same object is an '
                                              'implementation detail (interning, pickling, another process)')
     yield ctx.ob('SWEEP.COMPARISON-TRAPS', True, None, None, f'comparisons and except clauses scanned, {n} traps', construct='scan', path='labtech/')
+
+
+@rule('SWEEP.SLICE-BOUND-SIGN', _ALL_SCOPED)
+def slice_bound_sign(ctx: Ctx):
+    """`seq[-n:]` ("the last n") and `seq[:-n]` ("all but the last n") with a computed n: for n == 0 the first is the *whole*
+    sequence and the second is *empty*, because -0 is 0.  Accepted when n is a positive literal or the statement runs only
+    under a condition that excludes n == 0."""
+    n_seen = 0
+    for fn in ctx.P.all_functions():
+        if ctx.pid is not None and ctx.pid not in scope_of(fn):
+            continue
+        stmts = [x for x in walk_local_nodes(fn.node) if isinstance(x, ast.stmt)]
+        for x in walk_local_nodes(fn.node):
+            if not (isinstance(x, ast.Subscript) and isinstance(x.slice, ast.Slice)):
+                continue
+            for which, b, other in (('lower', x.slice.lower, x.slice.upper), ('upper', x.slice.upper, x.slice.lower)):
+                if not (isinstance(b, ast.UnaryOp) and isinstance(b.op, ast.USub)) or other is not None:
+                    continue
+                e = b.operand
+                if isinstance(e, ast.Constant) and isinstance(e.value, int) and e.value > 0:
+                    continue
+                n_seen += 1
+                # innermost statement holding the subscript
+                host = None
+                for st in stmts:
+                    if any(y is x for y in ast.walk(st)) and (host is None or any(y is st for y in ast.walk(host))):
+                        host = st
+                ok = False
+                if host is not None:
+                    c = cond_from_entry(ctx, fn, host)
+                    ok = any(implies(c, formula_of(ctx, fn, t)) for t in (f'{src(e)} > 0', f'{src(e)} != 0', f'{src(e)} >= 1'))
+                what = 'the whole sequence' if which == 'lower' else 'an empty sequence'
+                yield ctx.ob('SWEEP.SLICE-BOUND-SIGN', ok, fn, x, f'`{src(x)[:50]}`: the count cannot be 0 here', '' if ok else
+                             f'`{src(x)[:60]}` yields {what} when `{src(e)}` is 0 (-0 is 0), not {"no" if which == "lower" else "all"} elements')
+    yield ctx.ob('SWEEP.SLICE-BOUND-SIGN', True, None, None, f'slices scanned, {n_seen} with a negated computed bound', construct='scan', path='labtech/')
 
 
 @rule('SWEEP.PARAM-NOT-REBOUND-BY-LOOP', _ALL_SCOPED)
